@@ -135,7 +135,8 @@ EarlierNotesDone(u) ==
   \A v \in 1..Len(units) : (v < u /\ units[v].st \in {"disp", "sent"}) =>
      \A i \in 1..Len(units[v].tags) :
         LET x == mem[units[v].tags[i]] IN
-        (x.k = "note" /\ x.cls = "ok") => x.st = "done"
+        \* (a notification whose base context ended before it got a slot has no handler to wait for)
+        (x.k = "note" /\ x.cls = "ok") => (x.st = "done" \/ ("__base" \in cancelOK /\ x.st = "ready"))
 
 InUnitDup(T, t) == mem[t].id # "" /\ \E s \in SeqSet(T) : s # t /\ mem[s].id = mem[t].id
 
